@@ -464,7 +464,8 @@ class TestManager:
 
         self.pass_statistic.add_failure(self.current_pass)
         if test_env.result == PassResult.OK:
-            assert test_env.exitcode
+            # exitcode is None when the test could not be run at all (OSError in the worker)
+            assert test_env.exitcode != 0
             if self.also_interesting is not None and test_env.exitcode == self.also_interesting:
                 self.save_extra_dir(test_env.test_case_path)
         elif test_env.result == PassResult.STOP:
